@@ -9,6 +9,10 @@ where X, Y are caller-held symbolic arrays (NumPy subclass, immutable z3-term el
      objects, every element parameter is unchanged;
  (b) stepping from X again after the history yields next-state terms that z3 proves equal to
      those of the first step from X -- for all values of X at once.
+The first and the last step of every session pass no engine: they run with the library-wide engine
+the session selected once with `engines.use`; every operation in between passes its own engine
+explicitly (NumPy instances with other fill values, CasADi SX/MX), so a step that replaces the
+library-wide selection, or leaves anything behind in it, shows up in (b).
 A float twin of (a)/(b) with real float arrays accompanies every history (plain execution)."""
 from __future__ import annotations
 
@@ -89,12 +93,13 @@ class Session:
             else:
                 dst[k] = src[k]
 
-    def numpy_step(self, vals, bits, engine=None, drop=()):
+    def numpy_step(self, vals, bits, engine=None, drop=(), default=False):
+        """default=True: no engine is passed; the step runs with the engine the session selected with `engines.use`"""
         vals = {k: v for k, v in vals.items() if k[1] not in drop}
         ic = runs.init_conditions(self.built, vals)
         ic_snap = {el: dict(d) for el, d in ic.items()}
         snap = snapshot(vals)
-        self.built.net.step(init_conditions=ic, engine=engine or runs.numpy_engine(), **runs.flags_of(bits), **T_.model_kwargs(self.topo, self.P))
+        self.built.net.step(init_conditions=ic, engine=None if default else (engine or runs.numpy_engine()), **runs.flags_of(bits), **T_.model_kwargs(self.topo, self.P))
         problems = []
         bad = unchanged(vals, snap)
         if bad:
@@ -168,6 +173,8 @@ class Session:
             from sym_metanet.engines.numpy import Engine as NE
             # partial initial conditions: the speed limits of VSL links are left to the engine
             return self.numpy_step(self.X, 0, NE(np.float64(7.0)), drop=("v_ctrl",) if any(l.is_vsl for l in self.topo.links) else ())
+        if op == "N(X,dflt)":
+            return self.numpy_step(self.X, 0, default=True)
         if op.startswith("N("):
             vals = self.X if op[2] == "X" else self.Y
             bits = int(op[4:-1])
@@ -188,9 +195,13 @@ def work(item):
         acc.d["violations"].append({"key": f"c12:{topo.name}:{hist}:{what[:50]}", "group": what[:60], "what": f"{topo.describe()} | history {list(hist)}: {what}", "replay": rec})
 
     def session(sym):
+        import sym_metanet
+        # the user selects the library-wide engine once; the first and the last step rely on it (no engine passed), every
+        # operation in between passes its own engine explicitly
+        sym_metanet.engines.use(runs.numpy_engine())
         s = Session(topo, seed, sym)
         probs = []
-        first, problems = s.do("N(X,0)")
+        first, problems = s.do("N(X,dflt)")
         probs += problems
         asY = []
         rolls = []
@@ -202,7 +213,7 @@ def work(item):
             if isinstance(r, tuple) and r[0] == "roll":
                 rolls.append((r[1], r[2]))
         s.do("restore")
-        again, problems = s.do("N(X,0)")
+        again, problems = s.do("N(X,dflt)")
         probs += problems
         refY = None
         if asY:
